@@ -53,6 +53,31 @@ class Mode:
                 return m.find_method(fn.cls, f[2])
             if op(base) == "cls" and base[1] in m.classes:
                 return m.find_method(m.classes[base[1]], f[2])
+            if op(base) == "lv":
+                # a local that is (only ever) bound to an instance of a package class built in place - a helper
+                # object - has THAT class's methods, whatever other classes call a method by the same name
+                import ast as _ast
+
+                classes = set()
+                other = False
+                for n in _ast.walk(fn.node):
+                    if isinstance(n, (_ast.Assign, _ast.AnnAssign)):
+                        tgts = n.targets if isinstance(n, _ast.Assign) else [n.target]
+                        if any(isinstance(t_, _ast.Name) and t_.id == base[1] for t_ in tgts) and n.value is not None:
+                            v = n.value
+                            head = v.func if isinstance(v, _ast.Call) else None
+                            if isinstance(head, _ast.Attribute) and head.attr in ("_make", "from_tuple") :
+                                head = head.value
+                            nm = head.id if isinstance(head, _ast.Name) else None
+                            cands_ = [ci for ci in m.classes.values() if ci.name == nm] if nm else []
+                            if len(cands_) == 1:
+                                classes.add(cands_[0].qualname)
+                            else:
+                                other = True
+                if len(classes) == 1 and not other:
+                    ci = m.classes[next(iter(classes))]
+                    if ci.name != "Converter":
+                        return m.find_method(ci, f[2])
             if op(base) in ("param", "lv", "free"):
                 # annotated Converter parameter / unique method name in the package
                 hits = [x for x in m.methods_named(f[2]) if x.cls and x.cls.name == "Converter"]
